@@ -70,6 +70,9 @@ class Run(object):
         # managers whose exit method is an alias of a differently named function; the documented
         # limitation of the *referents* analysis excludes them, so C20's referents leg switches it off
         self.alias_exit = True
+        # managers whose __enter__/__exit__ are implemented in C
+        self.c_level = True
+        self.n_c_level = 0
 
     # ---- decisions -------------------------------------------------------------------
     def D(self):
@@ -322,21 +325,68 @@ class Run(object):
             __aexit__ = aclose
 
         class SF(S):
-            """falsy manager"""
+            """falsy manager; asking for its truth value is an observable event"""
 
             def __len__(s):
+                run.trace.append(("len", s.k))
                 return 0
 
         class AF(A):
             def __len__(s):
+                run.trace.append(("len", s.k))
                 return 0
+
+        import io as _io
+
+        class SC(Base, _io.BytesIO):
+            """manager whose __enter__/__exit__ are implemented in C (inherited from _io._IOBase, like
+            files; locks and memoryviews are the same kind): the exit callable the interpreter keeps is
+            a builtin method, not a types.MethodType.  The C code consults `closed` on entry and calls
+            close() on exit, which is where the shadow log is written."""
+            is_async = False
+
+            @property
+            def closed(s):
+                st = s.__dict__.get("_sc_state")
+                if st == "new":
+                    s._sc_state = "entered"
+                    run.log.append(("es", s))
+                    run.trace.append(("es", s.k))
+                    if run.probe_cb is not None:
+                        run.probe_cb(("enter", s.k))
+                    if s.enterfail:
+                        s._sc_state = "closed"
+                        run.log.append(("xe", s))
+                        raise EnterFail(s.k)
+                    run.log.append(("ee", s))
+                    return False
+                return st != "entered"
+
+            def close(s):
+                if s.__dict__.get("_sc_state") != "entered":
+                    return
+                s._sc_state = "closed"
+                run.log.append(("xs", s))
+                run.trace.append(("xs", s.k, None))
+                try:
+                    if run.probe_cb is not None:
+                        run.probe_cb(("exit", s.k, False))
+                    if s.exitfail and not run.closing:
+                        raise ExitFail(s.k)
+                finally:
+                    run.log.append(("xe", s))
 
         def mkS(k, shape=None, dropret=False):
             cls = SF if run.rng.random() < run.p_falsy else S
             if run.alias_exit and run.rng.random() < 0.15:
                 cls = SX
+            if run.c_level and shape is None and run.rng.random() < 0.12:
+                cls = SC
+                run.n_c_level += 1
             m = cls.__new__(cls)
             Base.__init__(m, k, shape)
+            if cls is SC:
+                m._sc_state = "new"
             m.dropret = dropret
             m.owner = id(sys._getframe(1))
             m.tag = (sys._getframe(1).f_lineno, k)
